@@ -9,5 +9,7 @@ def run(ctx):
     ctx.rule("R-IDLE-RESET", "transaction identity is cleared on every return to IDLE", floor=3)
     D.admit(ctx)
     D.facade_busy(ctx)
+    ctx.rule("R-FACADE-TRACK", "the facade's own state machine advances only for a DM14 it found the server idle for", floor=1)
+    D.facade_track(ctx)
     D.idle_reset(ctx)
     return "admission guard formula and dominance, effect set of the busy branch, facade busy wrapping"
